@@ -100,8 +100,10 @@ type c10Env struct {
 	close func()
 	def   interface{}
 
-	lastAnnounced bool // set by applyEvents: a create event arrived while the client did not hold the resource
-	nmut          int  // mutation transactions so far: every third reads the value first, every third also edits what it read in place
+	lastAnnounced bool   // set by applyEvents: a create event arrived while the client did not hold the resource
+	genID         string // what the mockstore's NewID callback returns next
+	genOK         bool   // the store has a NewID callback
+	nmut          int    // mutation transactions so far: every third reads the value first, every third also edits what it read in place
 	// fault injection "a commit that fails" (badgerstore only)
 	canConflict      bool
 	conflictFor      string
@@ -161,7 +163,10 @@ func newC10Env(c *core.Ctx, cfg c10Cfg) (*c10Env, error) {
 		// a store that reports not-found and duplicate wrapped in its own errors
 		e.st = wrapErrStore{mockstore.NewStore()}
 	default:
-		e.st = mockstore.NewStore()
+		ms := mockstore.NewStore()
+		// the store makes up the id of a value created through Write("")
+		ms.NewID = func() string { return e.genID }
+		e.st, e.genOK = ms, true
 	}
 	var tr store.Transformer
 	switch cfg.Trans {
@@ -364,6 +369,21 @@ func (e *c10Env) readFirst(wt store.WriteTxn, after interface{}) interface{} {
 }
 
 func (e *c10Env) mutate0(storeID string, before, after interface{}) error {
+	if e.genOK && before == nil && after != nil && e.nmut%2 == 1 {
+		// every other creation lets the store choose the id (Write("") with NewID set)
+		e.nmut++
+		e.genID = storeID
+		wt := e.st.Write("")
+		defer wt.Close()
+		e.c.Obs("creates_with_store_generated_id", 1)
+		if err := wt.Create(after); err != nil {
+			return err
+		}
+		if wt.ID() != storeID {
+			return fmt.Errorf("write transaction reports id %q after creating with generated id %q", wt.ID(), storeID)
+		}
+		return nil
+	}
 	wt := e.st.Write(storeID)
 	defer wt.Close()
 	after = e.readFirst(wt, after)
